@@ -321,8 +321,11 @@ namespace c9
             }
         }
     }
-    // hook counters of one phase of a generated instance (then reset):  <tag> <clamp violations> <value> <bound> <capacity violations> <value> <bound>
+    // hook counters of one phase of a generated instance (then reset):
+    //   <tag> <clamp violations> <value> <bound> <events> <capacity violations> <value> <bound> <events> P <clamp_placeholder events>
     // phases: HK0 = operands / arguments built, HK1 = library call (view built and read), HK2 = evaluation
+    // clamp_placeholder (site 11): a clamp of the placeholder shape of a default-constructed ndarray (overwritten by resize) -
+    // counted, never a violation; trees whose verif.hpp has no such site print 0
     inline void emit_hook_phase(Out& out, const char* tag)
     {
         out.tok(tag);
@@ -334,9 +337,16 @@ namespace c9
             out.i(nm::verif::state.first[s][1]);
             out.u(nm::verif::state.events[s]);
         }
+        out.tok("P");
+        constexpr size_t n_sites = sizeof(nm::verif::state.events) / sizeof(nm::verif::state.events[0]);
+        if constexpr (n_sites > 11) {
+            out.u(nm::verif::state.events[n_sites > 11 ? 11 : 0]);
+        } else {
+            out.u(0);
+        }
         nm::verif::reset();
 #else
-        out.tok("0 0 0 0 0 0 0 0");
+        out.tok("0 0 0 0 0 0 0 0 P 0");
 #endif
     }
 } // namespace c9
